@@ -465,3 +465,20 @@ open GscribModel.MotionTie in
 example : let c := C04_exC true
     let m : GscribModel.Transform.Machine := ⟨c.A.apply c.axes.resolve, c.rel⟩
     (((c.go false ⟨some 2, none, none⟩).2.map stmtView).foldl xfLineExec m).pos ≠ m.pos := by decide +kernel
+
+/-! ## C04: probes under a transform -/
+open GscribModel.MotionTie GscribModel.PointTie in
+/-- **C04 (probes) for the translated source**: with `self.transform.apply_transform` the map of any transformer state, the translated
+    `probe()` succeeds and writes one probe statement in which every axis mentioned carries the image under the transform of the
+    requested target (G90) or the linear image of the requested displacement (G91) - the same words a `move()` to that target carries. -/
+theorem SourceTie_C04_probe (c : GscribModel.Transform.Core) (b : B) (m : ProbeArg) (hm : m ≠ .bogus) (req : GscribModel.Transform.Pt) (h : Rat)
+    (hax : b.axes = ofT c.axes) (hrel : b.rel = c.rel) (hb : b.bounds.axes = none) :
+    let g := GCodeBuilder.probe_T (xfOf c.tr) (absB b) (argProbe m) (ofT req) [] h
+    g.2 = none ∧ g.1.out.map conv = [([m.code.text], ofT (c.transformMove req).1, [])] ∧
+    ∀ ax v, (c.transformMove req).1.get ax = some v →
+      v = if c.rel then (c.A.lin.apply req.resolve).get ax else (c.A.apply (c.axes.resolve.replace req)).get ax := by
+  obtain ⟨g1, _, g3⟩ := MotionTie_probe_xf c b m hm req h hax hrel hb
+  refine ⟨g1, g3, fun ax v hv => ?_⟩
+  cases hr : c.rel
+  · simpa using (C04_abs_word c false req hr).2.2 ax v hv
+  · simpa using (C04_rel_word c false req hr).2.2 ax v hv
